@@ -817,6 +817,11 @@ class Explorer:
                     res = self.universe(dest_ty)
                     if res != [STAR] and not ev:
                         self.unmodelled[cname] += 1
+                        if callee_f is None and (dest_ty.strip() in self.enums0 or dest_ty.split('<')[0].strip() in self.enumsN):
+                            # an external function handing back a value of one of the crate's own enums can only have computed it with the closures and
+                            # values it was given (a fold, a max_by_key ..): which variant comes out is decided by code this exploration does not
+                            # interpret.  Forking over all variants would invent outcomes that cannot happen; no verdict is better than that.
+                            raise Budget('%s at %s returns a value of the crate-local enum %s computed by closures the exploration does not interpret' % (cname, site, dest_ty[:60]))
             # locals whose &mut was handed to an unmodelled callee are havocked
             havoc = []
             if ev is None and not is_tracing(t):
